@@ -21,7 +21,9 @@ RULE = ("(1) the three space/spin tables are translated from the current "
         "methods; (2) products of 1-6 Kronecker deltas forming chains, stars "
         "and trees over occ/virt/general x spin ''/a/b indices with tensors "
         "(non-symmetric, antisymmetric, amplitudes, symmetric), F/Fd "
-        "operators, squares, prefactors; explicit and counted target indices; "
+        "operators, squares, prefactors, unexpanded sum factors (a*b + c*d)^n "
+        "with Kronecker deltas inside some summands (which evaluate_deltas must "
+        "leave alone); explicit and counted target indices; "
         "a second stream in which contracted indices occur on deltas only "
         "(model agreement only); (3) every evaluate_deltas call made by "
         "wicks during real derivations.  Every recorded call of "
@@ -456,7 +458,11 @@ def run(ctx):
                              "targets": str(rec["tg"]),
                              "result": str(rec["result"])[:200]},
                      kind=f"{stream}:deltas{min(nd, 7)}:"
-                          f"{'counted' if u['tg'] is None else 'explicit'}")
+                          f"{'counted' if u['tg'] is None else 'explicit'}"
+                          + (":sum-factor" if any(
+                              isinstance(a, Add) or (a.is_Pow and isinstance(
+                                  a.base, Add)) for a in rec["expr"].args)
+                             else ""))
             # the recursive call must be given the target list (the model
             # uses one target list for the whole recursion)
             fwd = not rec["children"] or rec["children"][0]["tg"] is not None
